@@ -20,6 +20,8 @@ def gen_store(rng, n=None, adversarial=False):
     authors = gen.AUTHORS[:4]
     kinds = [1, 1, 1, 7, 4, 30000, 10002, 20000 if rng.random() < 0.1 else 1]
     times = gen.TIMES[:9]
+    long_fam = long_family(rng) if rng.random() < 0.15 else None
+    long_name = rng.choice(["t", "r"])
     for i in range(n if n is not None else rng.randint(3, 26)):
         e = gen.gen_event(rng, known_ids=[x["id"] for x in evs], authors=authors, kinds=kinds, times=times)
         if adversarial and rng.random() < 0.5:
@@ -32,9 +34,22 @@ def gen_store(rng, n=None, adversarial=False):
             name = rng.choice(["t", "t", "e", "d"])
             for v in rng.sample(gen.FAMILY, 2):
                 e["tags"].append([name, v])
+        if long_fam and rng.random() < 0.45:
+            e["tags"].append([long_name, rng.choice(long_fam)])
         # stores are built without replacement/deletion semantics getting in the way
         evs.append(e)
     return evs
+
+
+def long_family(rng):
+    """tag values around the sizes at which a backend could be tempted to truncate or to skip the index entry: the longest
+    value LMDB can index (470 bytes under a one-letter name: 511-byte keys), one more, and values of 512 / 513 / 600 / 3000
+    characters that agree on a long beginning"""
+    stem = rng.choice(["L", "https://example.com/" + "p/" * 40])
+    def mk(n, tail=""):
+        return (stem * (n // len(stem) + 1))[:n - len(tail)] + tail
+    return [mk(469), mk(470), mk(470, "z"), mk(471), mk(471, "y"), mk(512), mk(513), mk(513, "a"), mk(513, "b"), mk(600), mk(600, "q"),
+            mk(3000)]
 
 
 def gen_adv_filter(rng, evs):
